@@ -16,13 +16,17 @@ func init() {
 			ma := newMergeAnalysis(c)
 			ma.collectPairs()
 			ma.ruleR10(c)
+			ma.ruleR7f(c)
 			ma.ruleR11(c, "abcd")
 			ma.ruleR12(c)
 			ma.ruleR13(c)
 			ma.ruleR21(c)
 			ma.ruleR22(c)
 			ma.ruleR14n(c)
+			ma.ruleR14m(c)
+			ma.ruleR8(c)
 			genRules(c, "G1", "G2", "G3")
+			ruleG6(c)
 		},
 		explanation: "The behaviour is an equality of OCI specs and is not decided.  Decided is the bookkeeping shape that equality needs: every accepted write of a plugin value into the request view has a twin write of the same item and value into the reply accumulator under the same guard (and vice versa); for every removable collection kind the reply drops entries whose key is removal-marked, the view drops marked and re-set keys before the new entries are appended, and removals that are not re-set are re-emitted into the reply as markers; list-valued items only ever grow by append(existing, new...) in plugin order; every field of the adjustment messages is consumed by the merge code; the response getters return exactly the accumulators; and the generator that applies the reply consumes every adjustment field and interprets removals/sets order-independently.",
 		notDecided: []string{
